@@ -157,6 +157,8 @@ def _expected(b):
         exp["n"] = len(nodes)
         exp["m"] = len(E)
         exp["w"] = O.min_cover(O.STGraph(nodes, E), E)
+    else:
+        exp["n"], exp["m"], exp["w"] = 0, 0, 0   # stored counts and width match the (empty) graph
     return exp
 
 
@@ -204,11 +206,10 @@ def run(case):
                 errs.append(f"id {G.graph.get('id')!r} != first header line {exp['id']!r}")
             if [list(map(tuple, c)) for c in G.graph.get("constraints", [])] != exp["constraints"]:
                 errs.append(f"constraints {G.graph.get('constraints')} != {exp['constraints']}")
-            if not b["zero"]:
-                for k in ("n", "m", "w"):
-                    if G.graph.get(k) != exp[k]:
-                        errs.append(f"stored {k}={G.graph.get(k)} but the graph has {exp[k]}")
-            elif G.number_of_nodes() != 0:
+            for k in ("n", "m", "w"):
+                if G.graph.get(k) != exp[k]:
+                    errs.append(f"stored {k}={G.graph.get(k)} but the graph has {exp[k]}")
+            if b["zero"] and G.number_of_nodes() != 0:
                 errs.append("zero-vertex block produced nodes")
             if errs:
                 viol.append({"kind": "parsed_graph_differs", "msg": f"block {gi}: {errs[0]} in {ctx}"})
@@ -240,6 +241,13 @@ def run(case):
             continue
         if len(toks) == 1:
             corruptions.append((f"line {i}: non-numeric vertex count", lines[:i] + ["three"] + lines[i + 1:]))
+            if s != "0" and any(x.strip().startswith("#S") and len(x.split()) >= 3 for x in lines[max(0, i - 4):i]):
+                # count corrupted to 0 and the edge lines lost: the '#S' lines of the block now name absent arcs
+                nxt = [j for j in range(i + 1, len(lines)) if lines[j].strip().startswith("#")]
+                end = nxt[0] if nxt else len(lines)
+                corruptions.append((f"line {i}: vertex count 0 and no edge lines, constraints kept", lines[:i] + ["0"] + lines[end:]))
+            if s == "0":
+                corruptions.append((f"line {i}: malformed edge line after a 0 count", lines[:i + 1] + ["a b"] + lines[i + 1:]))
             if any(len(x.split()) == 3 and not x.strip().startswith("#") for x in lines[i + 1:i + 3]):
                 corruptions.append((f"line {i}: vertex count line deleted", lines[:i] + lines[i + 1:]))
         elif len(toks) == 3:
